@@ -234,7 +234,7 @@ func gen(r *hv.Rng, i int, tier string) (string, hv.Val) {
 		}
 		prev = [2]addr{s, e}
 		pairs = append(pairs, hv.L{hv.B(s.bytes()), hv.B(e.bytes())})
-		if len(probes) < 90 {
+		if len(probes) < 60 {
 			addProbe(s)
 			addProbe(e)
 		}
@@ -267,5 +267,5 @@ func gen(r *hv.Rng, i int, tier string) (string, hv.Val) {
 }
 
 func main() {
-	hv.Main(&hv.Spec{Prop: "C19", Gen: gen, Impl: impl, NQuick: 6000, NThorough: 300000})
+	hv.Main(&hv.Spec{Prop: "C19", Gen: gen, Impl: impl, NQuick: 4000, NThorough: 300000})
 }
